@@ -192,6 +192,12 @@ def check(run: Run) -> None:
         from . import c02 as c02_
         R.share(run, "C17.h", c02_, ["C02.c"])
 
+    with run.obligation("C17.i", "K1", "a timer pending on a node survives a visit in which the node did not run (an input ticked while another required input is still invalid): the "
+                        "input notification overwrote the node's single graph slot with NOW, and the post-evaluation scheduler service re-arms the slot from the remaining "
+                        "events whether or not user code ran (shared with C18.e: the evaluate_impl decision table)"):
+        from . import c18 as c18_
+        R.share(run, "C17.i", c18_, ["C18.e"])
+
 
 VARIANTS = [
     {"id": "g-seed-C17-6-no-stop-test-after-advance", "expect": "C17.g", "edits": [{"file": EXEC, "find": "                if (state.stop_requested.load(std::memory_order_acquire) ||\n                    evaluation_time == MAX_DT ||\n                    evaluation_time >= state.end_time)\n                {\n                    break;\n                }", "replace": "                if (evaluation_time == MAX_DT || evaluation_time >= state.end_time) { break; }"}]},
